@@ -1,0 +1,109 @@
+//go:build verif
+
+package router
+
+// Verification hook (only built with -tags verif): a read-only snapshot of the
+// sizes of the realm, broker and dealer tables. Every number is read by a
+// closure submitted to the goroutine that owns the table, i.e. under the
+// synchronisation the router itself uses.
+
+// VerifRealmSnapshot holds the table sizes of one realm.
+type VerifRealmSnapshot struct {
+	Clients    int
+	Testaments int
+
+	TopicSubs     int // exact topic -> subscription
+	PfxTopicSubs  int
+	WcTopicSubs   int
+	Subscriptions int // id -> subscription
+	Subscribers   int // sum of subscriber set sizes
+	SessionSubSet int // sessions having a subscription id set
+	HistoryStores int
+	HistoryEvents int
+
+	ProcRegs         int // exact procedure -> registration
+	PfxProcRegs      int
+	WcProcRegs       int
+	Registrations    int // id -> registration
+	Callees          int // sum of callee list lengths
+	Calls            int
+	Invocations      int
+	InvocationByCall int
+	CalleeRegSets    int // callee sessions having a registration id set
+}
+
+// VerifSnapshot returns the table sizes of every realm of the router, or nil
+// if the router is closed.
+func VerifSnapshot(rt Router) (snap map[string]VerifRealmSnapshot) {
+	r, ok := rt.(*router)
+	if !ok {
+		return nil
+	}
+	defer func() {
+		if recover() != nil { // router closed while asking
+			snap = nil
+		}
+	}()
+	realms := map[string]*realm{}
+	closed := false
+	sync := make(chan struct{})
+	r.actionChan <- func() {
+		closed = r.closed
+		for uri, rl := range r.realms {
+			realms[string(uri)] = rl
+		}
+		close(sync)
+	}
+	<-sync
+	if closed {
+		return nil
+	}
+	snap = map[string]VerifRealmSnapshot{}
+	for name, rl := range realms {
+		var s VerifRealmSnapshot
+		done := make(chan struct{})
+		rl.actionChan <- func() {
+			s.Clients = len(rl.clients)
+			s.Testaments = len(rl.testaments)
+			close(done)
+		}
+		<-done
+		b := rl.broker
+		done = make(chan struct{})
+		b.actionChan <- func() {
+			s.TopicSubs = len(b.topicSubscription)
+			s.PfxTopicSubs = len(b.pfxTopicSubscription)
+			s.WcTopicSubs = len(b.wcTopicSubscription)
+			s.Subscriptions = len(b.subscriptions)
+			for _, sub := range b.subscriptions {
+				s.Subscribers += len(sub.subscribers)
+			}
+			s.SessionSubSet = len(b.sessionSubIDSet)
+			s.HistoryStores = len(b.eventHistoryStore)
+			for _, h := range b.eventHistoryStore {
+				s.HistoryEvents += h.entries.Len()
+			}
+			close(done)
+		}
+		<-done
+		d := rl.dealer
+		done = make(chan struct{})
+		d.actionChan <- func() {
+			s.ProcRegs = len(d.procRegMap)
+			s.PfxProcRegs = len(d.pfxProcRegMap)
+			s.WcProcRegs = len(d.wcProcRegMap)
+			s.Registrations = len(d.registrations)
+			for _, reg := range d.registrations {
+				s.Callees += len(reg.callees)
+			}
+			s.Calls = len(d.calls)
+			s.Invocations = len(d.invocations)
+			s.InvocationByCall = len(d.invocationByCall)
+			s.CalleeRegSets = len(d.calleeRegIDSet)
+			close(done)
+		}
+		<-done
+		snap[name] = s
+	}
+	return snap
+}
